@@ -2,8 +2,9 @@
   C10 — CEL markers: the generated Go agrees with reference CEL semantics (PARTIAL).
 
   Proved (Gvlean/Proofs/Cel.lean), for EVERY expression of the fragment `Cel.BoolE` — integer
-  arithmetic + - * and unary minus over `value`, `this.X` and literals, the six comparisons, && || ! —
-  of any nesting depth, for every struct content:
+  arithmetic + - * / % and unary minus over `value`, `this.X` and literals, the six comparisons, && || ! —
+  of any nesting depth, for every struct content (`divSafe`: no division or remainder meets a zero divisor in Go's
+  evaluation — where one does, the generated code panics: known finding C17-cel-div, witnessed by `c10_div_zero_witness`):
     * the translator model prints a text that the Go parser reads back as the expression's own tree
       (the parentheses the translator inserts are sufficient; nothing degrades to the `true` fallback);
     * whenever reference CEL evaluation yields a boolean (int64 arithmetic with overflow = error,
@@ -30,22 +31,23 @@ theorem c10_structure (F : String) (e : BoolE) :
   exact ⟨f, hf, good_parse g (bprec_ge1 e)⟩
 
 /-- semantics: when the reference yields a boolean, the parsed Go text evaluates to the same boolean -/
-theorem c10_core (F : String) (ρ : String → Int) (e : BoolE) (b : Bool) (h : celB F ρ e = some b) :
+theorem c10_core (F : String) (ρ : String → Int) (e : BoolE) (b : Bool) (hs : e.divSafe F ρ = true) (h : celB F ρ e = some b) :
     ∃ f, toGo F e.toExpr = some f ∧ (parse f).bind (goB ρ) = some b := by
   obtain ⟨f, hf, hp⟩ := c10_structure F e
-  exact ⟨f, hf, by rw [hp]; exact goB_sound F ρ e b h⟩
+  exact ⟨f, hf, by rw [hp]; exact goB_sound F ρ e b hs h⟩
 
 /-- the generated statement is `if !(cond) { report the CEL error }`: it reports iff the expression is false -/
-theorem c10_reported_iff (F : String) (ρ : String → Int) (e : BoolE) (b : Bool) (h : celB F ρ e = some b) :
+theorem c10_reported_iff (F : String) (ρ : String → Int) (e : BoolE) (b : Bool) (hs : e.divSafe F ρ = true) (h : celB F ρ e = some b) :
     ∃ f, condition F e.toExpr = some ("!(" ++ render f ++ ")") ∧ ((parse f).bind (goB ρ)).map (!·) = some (!b) := by
-  obtain ⟨f, hf, hv⟩ := c10_core F ρ e b h
+  obtain ⟨f, hf, hv⟩ := c10_core F ρ e b hs h
   exact ⟨f, by simp [condition, hf], by rw [hv]; rfl⟩
 
-/-- Go never fails at run time on this fragment (no division, no indexing): whatever CEL says -/
-theorem c10_total (F : String) (ρ : String → Int) (e : BoolE) :
+/-- Go never fails at run time on this fragment unless a division or remainder meets a zero divisor (`divSafe`; the panic
+    in that case is the known finding C17-cel-div): whatever CEL says -/
+theorem c10_total (F : String) (ρ : String → Int) (e : BoolE) (hs : e.divSafe F ρ = true) :
     ∃ f c, toGo F e.toExpr = some f ∧ (parse f).bind (goB ρ) = some c := by
   obtain ⟨f, hf, hp⟩ := c10_structure F e
-  obtain ⟨c, hc⟩ := goB_total F ρ e
+  obtain ⟨c, hc⟩ := goB_total F ρ e hs
   exact ⟨f, c, hf, by rw [hp]; exact hc⟩
 
 /-! ### "must fail loudly": a function or method the translator has no rendering for is REFUSED by the model
@@ -107,6 +109,18 @@ theorem c10_grouping_witness :
 theorem c10_grouping_witness_value :
     goB (fun _ => 5) (.bin ">" (.bin "+" (.ref "F") (.bin "*" (.int 1) (.int 2))) (.int 10)) = some false
     ∧ celB "F" (fun _ => 5) (.cmp .gt (.mul (.add .value (.lit 1)) (.lit 2)) (.lit 10)) = some true := by
+  constructor <;> decide +kernel
+
+/-- why `divSafe` is needed: `value / this.Y > 1 || true` with Y = 0 — CEL absorbs the error (true), Go's left-to-right
+    evaluation meets the zero divisor first (`none` = run-time panic) -/
+theorem c10_div_zero_witness :
+    celB "F" (fun _ => 0) (.or (.cmp .gt (.div .value (.this "Y")) (.lit 1)) (.lit true)) = some true
+    ∧ goB (fun _ => 0) ((BoolE.or (.cmp .gt (.div .value (.this "Y")) (.lit 1)) (.lit true)).tree "F") = none := by
+  constructor <;> decide +kernel
+
+/-! non-vacuity of the division case: `value * (this.X / this.Y) > 3` with F = 2, X = 5, Y = 2 (grouping matters: 2*(5/2) = 4) -/
+example : celB "F" (fun s => if s == "F" then 2 else if s == "X" then 5 else 2) (.cmp .gt (.mul .value (.div (.this "X") (.this "Y"))) (.lit 3)) = some true
+    ∧ (BoolE.cmp .gt (.mul .value (.div (.this "X") (.this "Y"))) (.lit 3)).divSafe "F" (fun s => if s == "F" then 2 else if s == "X" then 5 else 2) = true := by
   constructor <;> decide +kernel
 
 /-! non-vacuity: an expression with overflow absorbed by || on which CEL yields a boolean -/
